@@ -148,7 +148,43 @@ def _mask_up(b):
     return (1 << b.bit_length()) - 1
 
 
+def bv64(v):
+    """64-bit signed bit-vector twin of v (exact), or None"""
+    if isinstance(v, bool):
+        return z3.BitVecVal(int(v), 64)
+    if isinstance(v, int):
+        return z3.BitVecVal(v, 64) if -(2 ** 62) < v < 2 ** 62 else None
+    if isinstance(v, SymInt) and v.bv is not None:
+        t, signed = v.bv
+        n = t.size()
+        if n == 64:
+            return t if signed else None
+        return z3.SignExt(64 - n, t) if signed else z3.ZeroExt(64 - n, t)
+    return None
+
+
+def _small_twin(v):
+    """twin usable in +,-,* with small constants without 64-bit overflow"""
+    if isinstance(v, SymInt) and v.bv is not None and (v.bv[0].size() <= 32 or v.bv[1]):
+        # 64-bit signed twins only arise from int(float) whose side obligation bounds |x| < 2**62
+        return bv64(v)
+    return None
+
+
 def int_add(a, b):
+    ta, tb = _small_twin(a), _small_twin(b)
+    tw = None
+    if ta is not None and isinstance(b, int) and abs(b) < 2 ** 40:
+        tw = (ta + z3.BitVecVal(b, 64), True)
+    elif tb is not None and isinstance(a, int) and abs(a) < 2 ** 40:
+        tw = (tb + z3.BitVecVal(a, 64), True)
+    r = _int_add(a, b)
+    if tw is not None and isinstance(r, SymInt):
+        r = SymInt(r.e, r.bits, tw)
+    return r
+
+
+def _int_add(a, b):
     ba, bb = bits_of(a), bits_of(b)
     bits = None
     if ba is not None and bb is not None:
@@ -160,7 +196,11 @@ def int_add(a, b):
 
 
 def int_sub(a, b):
-    return mk_int(zi(a) - zi(b))
+    ta = _small_twin(a)
+    r = mk_int(zi(a) - zi(b))
+    if ta is not None and isinstance(b, int) and abs(b) < 2 ** 40 and isinstance(r, SymInt):
+        r = SymInt(r.e, r.bits, (ta - z3.BitVecVal(b, 64), True))
+    return r
 
 
 def int_mul(a, b):
@@ -312,6 +352,21 @@ def int_pow(a, b):
 
 
 def cmp_op(op, a, b):
+    if (isinstance(a, SymInt) and a.bv is not None) or (isinstance(b, SymInt) and b.bv is not None):
+        ta, tb = bv64(a), bv64(b)
+        if ta is not None and tb is not None:
+            if op == "<":
+                return mk_bool(ta < tb)
+            if op == "<=":
+                return mk_bool(ta <= tb)
+            if op == ">":
+                return mk_bool(ta > tb)
+            if op == ">=":
+                return mk_bool(ta >= tb)
+            if op == "==":
+                return mk_bool(ta == tb)
+            if op == "!=":
+                return mk_bool(ta != tb)
     A, B = zi(a), zi(b)
     if op == "<":
         return mk_bool(A < B)
@@ -609,6 +664,10 @@ def bytes_concat(a, b):
 def bytes_index(b, i):
     b = as_symbytes(b)
     r = b.get(i)
+    if isinstance(r, SymInt):
+        return r if r.bits is not None else SymInt(r.e, 255, r.bv)
+    if isinstance(r, SymBool):
+        return mk_int(zi(r), 1)
     return mk_int(r, 255) if not isinstance(r, int) else r
 
 
@@ -643,6 +702,8 @@ def bytes_startswith(b, prefix):
         raise Unsupported("startswith with symbolic prefix")
     b = as_symbytes(b)
     n = len(prefix)
+    if isinstance(b.length, int) and b.length < n:
+        return False
     return b_and(
         cmp_op(">=", mk_int(zi(b.length)), n),
         *[cmp_op("==", b.get(k), prefix[k]) for k in range(n)]
@@ -655,6 +716,8 @@ def bytes_endswith(b, suffix):
     b = as_symbytes(b)
     n = len(suffix)
     L = b.length
+    if isinstance(L, int) and L < n:
+        return False
     conds = [cmp_op(">=", mk_int(zi(L)), n)]
     for k in range(n):
         idx = (L - n + k) if isinstance(L, int) else (L - (n - k))
